@@ -70,7 +70,11 @@ def job_grammar(p: Dict[str, Any]) -> Dict[str, Any]:
             if o.shape != ee.shape:
                 bad.append(f"binding {b}: output {k} shape {o.shape} vs JAX {ee.shape}")
                 break
-            if not np.array_equal(o.astype(np.float64), ee.astype(np.float64)):
+            o64, e64 = o.astype(np.float64), ee.astype(np.float64)
+            # integers exact; floats within a few ulp (XLA turns x/7 into x*(1/7): s/B*B is not bit-stable for B=7),
+            # a wrong dimension value changes results grossly
+            same = np.array_equal(o64, e64) if ee.dtype.kind not in "fc" else np.allclose(o64, e64, rtol=2e-6, atol=1e-6, equal_nan=True)
+            if not same:
                 bad.append(f"binding {b}: output {k} = {o.reshape(-1)[:4]} vs JAX {ee.reshape(-1)[:4]}")
                 break
     return {"status": "ok", "bad": bad[:4], "n_bad": len(bad), "ran": ran, "bindings": len(bindings),
